@@ -18,7 +18,7 @@ from pbt import clientharness as ch, docs, jsongen as jg, methods as hm, refserv
 from pbt.runner import Check, Disc, Outcome
 
 from checks import c07, c09, c12, c19
-from checks.c01 import BATCH_LIMITS, batch_limit
+from checks.c01 import BATCH_LIMITS, CODEC_CHOICES, batch_limit
 
 
 def summarise_value(v: Any) -> Any:
@@ -64,9 +64,9 @@ class C11(Check):
     def strategy(self, tier: str):
         def server_plain():
             reg = stdreg.std_registry('sync')
-            return st.builds(lambda text, beh, mbs: {'kind': 'server', 'max_batch_size': batch_limit(text, mbs), 'behaviours': beh, 'text': text,
-                                                     'middlewares': [], 'handlers': None},
-                             docs.document(reg), stdreg.behaviours(), st.sampled_from(BATCH_LIMITS))
+            return st.builds(lambda text, beh, mbs, codec: {'kind': 'server', 'max_batch_size': batch_limit(text, mbs), 'behaviours': beh, 'text': text,
+                                                            'middlewares': [], 'handlers': None, 'codec': codec},
+                             docs.document(reg), stdreg.behaviours(), st.sampled_from(BATCH_LIMITS), st.sampled_from(CODEC_CHOICES))
         s12 = c12.CHECK.strategy(tier).map(lambda s: {'kind': 'server', 'max_batch_size': None, 'behaviours': s['behaviours'], 'text': s['text'],
                                                       'middlewares': s['middlewares'], 'handlers': s['handlers']})
         s_codec = st.sampled_from(['default', 'default'] + ch.CODECS[1:])
@@ -87,6 +87,9 @@ class C11(Check):
             out.append({'kind': 'server', 'max_batch_size': None, 'behaviours': {'ret': {'kind': 'return', 'value': value}}, 'middlewares': [], 'handlers': None,
                         'text': t([{'jsonrpc': '2.0', 'id': 1, 'method': 'ret'}, {'jsonrpc': '2.0', 'id': 2, 'method': 'echo', 'params': [value]},
                                    {'jsonrpc': '2.0', 'id': 3, 'method': 'wrapped', 'params': [value]}])})
+        for codec in ch.CODECS[1:]:
+            out.append({'kind': 'server', 'max_batch_size': None, 'behaviours': {}, 'middlewares': [], 'handlers': None, 'codec': codec,
+                        'text': t([{'jsonrpc': '2.0', 'id': 1, 'method': 'echo', 'params': [1.5]}, {'jsonrpc': '2.0', 'id': 2, 'method': 'echo', 'params': {'a': [0.25]}}])})
         # scripted clients with an application JSON codec, every request kind
         for codec in ch.CODECS[1:]:
             for rk in ('single', 'batch', 'notification'):
@@ -120,6 +123,9 @@ class C11(Check):
         kw: Dict[str, Any] = {'middlewares': mws, 'error_handlers': table}
         if spec.get('max_batch_size') is not None:
             kw['max_batch_size'] = spec['max_batch_size']
+        if spec.get('codec', 'default') != 'default':
+            from pbt import codecs
+            kw.update(codecs.kwargs_for(spec['codec'], 'server'))
         d = hm.build_dispatcher(dkind, stdreg.std_registry(regkind), **kw)
         text = docs.render(spec['text'])
         out: Dict[str, Any] = {'text': text}
